@@ -9,6 +9,7 @@ import (
 
 	"github.com/invopop/gobl"
 	"github.com/invopop/gobl/dsig"
+	"github.com/invopop/gobl/head"
 	"github.com/invopop/gobl/internal/iotools"
 )
 
@@ -32,7 +33,13 @@ func Verify(ctx context.Context, in io.Reader, key *dsig.PublicKey) error {
 	if !env.Signed() {
 		return wrapErrorf(http.StatusUnprocessableEntity, "envelope is not signed")
 	}
-	if err := env.Signatures[0].VerifyPayload(key, env); err != nil {
+	sig := env.Signatures[0]
+	if err := sig.VerifyPayload(key, new(head.Header)); err != nil {
+		return wrapError(http.StatusUnprocessableEntity, err)
+	}
+	// the key matches: also ensure the signed header is still contained
+	// in the envelope's current header.
+	if err := env.VerifySignature(sig, key); err != nil {
 		return wrapError(http.StatusUnprocessableEntity, err)
 	}
 	return nil
